@@ -78,17 +78,21 @@ class Sh:
             i = i + 1 if i < 10 else i * 7
         return f"{n}_{i}"
 
-    def add(self, n, t, fi=None, fo=None, out=False, uid=False):
+    def add(self, n, t, fi=None, fo=None, out=False, uid=False, conn=False, redef=False):
         if uid:
             n = self.uid(n)
-        elif n in self.n:
+        elif n in self.n and not redef:
             raise Rej
         fi, fo = norm(fi, False), norm(fo, False)
         if t not in SUPPORTED or (len(fi) > 1 and t in ("buf", "not")) or (fi and t in ("0", "1", "x", "input")):
             raise Rej
         if not n or n[0] in "0123456789":
             raise Rej
-        self.n[n] = [t, out, set()]
+        self.n[n] = [t, out, self.n[n][2] if n in self.n else set()]
+        if conn:
+            for f in fi + fo:
+                if f not in self.n:
+                    self.add(f, "buf")
         new = [v for v in fo if v in self.n and n not in self.n[v][2]]
         self.connect(n, fo)
         try:
@@ -187,6 +191,8 @@ class Sh:
         try:
             if k == "add":
                 self.add(*op[1:])
+            elif k == "addx":
+                self.add(op[1], op[2], op[3], op[4], op[5], op[8], op[6], op[7])
             elif k == "connect":
                 self.connect(op[1], op[2])
             elif k == "disconnect":
@@ -212,6 +218,8 @@ def apply_real(cg, lib, c, op):
     k = op[0]
     if k == "add":
         return c.add(op[1], op[2], fanin=op[3], fanout=op[4], output=op[5], uid=op[6]), None
+    if k == "addx":
+        return c.add(op[1], op[2], fanin=op[3], fanout=op[4], output=op[5], add_connected_nodes=op[6], allow_redefinition=op[7], uid=op[8]), None
     if k == "connect":
         return c.connect(op[1], op[2]), None
     if k == "disconnect":
@@ -298,6 +306,8 @@ def suspicious(first, ops, steps):
     removed = set()
     for k, (op, st) in enumerate(zip(ops, steps)):
         cur = st["state"] or prev
+        if op[0] == "addx" and op[7]:
+            return None            # after a redefining add only the weak invariant is demanded; no shrinking heuristics
         if op[0] == "remove":
             removed |= set(norm(op[1], False))
         if not py_inv(cur, removed):
@@ -307,7 +317,7 @@ def suspicious(first, ops, steps):
                 return k
             if st["oc"] != "ValueError" and not (op[0] == "set_output" and st["oc"] == "KeyError"):
                 return k
-        if op[0] == "add":
+        if op[0] in ("add", "addx"):
             old = {n: (t, o, set(fi)) for n, t, o, fi in prev["nodes"]}
             new = {n: (t, o, set(fi)) for n, t, o, fi in cur["nodes"]}
             if any(n not in new or new[n][:2] != v[:2] or not v[2] <= new[n][2] for n, v in old.items()):
